@@ -288,6 +288,9 @@ func cmdCheck(args []string) int {
 	replayDir := filepath.Join(*verif, "replays", cfg.ID)
 	os.RemoveAll(replayDir)
 	for _, r := range results {
+		if *verbose {
+			fmt.Printf("  %-11s %6.2fs q=%-3d %v %s\n", r.Status, r.Time, r.Queries, r.Solver, r.Name)
+		}
 		queries += r.Queries
 		solverTime += r.Time
 		for k, v := range r.Solver {
@@ -443,12 +446,17 @@ func discharge(obls []*Obligation, dir string, timeout int) []*NamedResult {
 					goals = append(goals, o.Goal)
 				}
 				comb := &Obligation{Unit: todo[0].Unit, Kind: "group", Label: todo[0].Site, Assumes: todo[0].Assumes, Goal: And(goals...), prog: todo[0].prog, Inputs: todo[0].Inputs}
-				sc := comb.prog.buildScript(comb)
 				gto := timeout
 				if gto > 3 {
 					gto = 3 // the conjunction is only a shortcut: fall back to per-clause queries quickly
 				}
-				r := Solve(dir, fmt.Sprintf("g%d_%s", gi, comb.Name()), sc, gto)
+				var r *SolverResult
+				if gr := tryGround(dir, fmt.Sprintf("gg%d_%s", gi, comb.Name()), comb, gto); gr != nil {
+					r = gr
+				} else {
+					sc := comb.prog.buildScript(comb)
+					r = Solve(dir, fmt.Sprintf("g%d_%s", gi, comb.Name()), sc, gto)
+				}
 				mu.Lock()
 				for _, o := range todo {
 					qcount[o]++
@@ -462,16 +470,49 @@ func discharge(obls []*Obligation, dir string, timeout int) []*NamedResult {
 				}
 			}
 			for oi, o := range todo {
-				var sc *Script
-				if o.prog != nil {
-					sc = o.prog.buildScript(o)
-				} else {
-					sc = (&Program{}).buildScript(o)
+				solveOne := func(o *Obligation, tag string) *SolverResult {
+					mu.Lock()
+					qcount[o]++
+					mu.Unlock()
+					if o.prog != nil {
+						if gr := tryGround(dir, fmt.Sprintf("og%s%d_%d_%s", tag, gi, oi, o.Name()), o, timeout); gr != nil {
+							return gr
+						}
+					}
+					var sc *Script
+					if o.prog != nil {
+						sc = o.prog.buildScript(o)
+					} else {
+						sc = (&Program{}).buildScript(o)
+					}
+					return Solve(dir, fmt.Sprintf("o%s%d_%d_%s", tag, gi, oi, o.Name()), sc, timeout)
 				}
-				o.Res = Solve(dir, fmt.Sprintf("o%d_%d_%s", gi, oi, o.Name()), sc, timeout)
-				mu.Lock()
-				qcount[o]++
-				mu.Unlock()
+				o.Res = solveOne(o, "")
+				if o.Res.Status != "unsat" && o.Res.Status != "sat" {
+					// undecided: prove the conjuncts of the goal one by one (each is a smaller query)
+					parts := splitGoal(skolemizeQuant(o.Goal, true))
+					if len(parts) > 1 {
+						all := true
+						var tt float64
+						var last *SolverResult
+						for pi, pg := range parts {
+							po := *o
+							po.Goal = pg
+							pr := solveOne(&po, fmt.Sprintf("p%d_", pi))
+							tt += pr.Time
+							last = pr
+							if pr.Status != "unsat" {
+								all = false
+								break
+							}
+						}
+						if all {
+							last.Time = tt
+							last.Solver += "+split"
+							o.Res = last
+						}
+					}
+				}
 			}
 		}(gi, g)
 	}
@@ -511,6 +552,44 @@ func discharge(obls []*Obligation, dir string, timeout int) []*NamedResult {
 		out = append(out, byName[n])
 	}
 	return out
+}
+
+// splitGoal: the conjuncts of a goal, looking through implications.
+func splitGoal(g *Term) []*Term {
+	if g.kind == tApp && g.Op == "and" {
+		var out []*Term
+		for _, a := range g.Args {
+			out = append(out, splitGoal(a)...)
+		}
+		return out
+	}
+	if g.kind == tApp && g.Op == "=>" {
+		var out []*Term
+		for _, b := range splitGoal(g.Args[1]) {
+			out = append(out, Implies(g.Args[0], b))
+		}
+		return out
+	}
+	return []*Term{g}
+}
+
+// tryGround attempts the quantifier-free variant of an obligation (instances made by the generator). Only a proof
+// ("unsat") is a result; anything else returns nil and the quantified VC is tried.
+func tryGround(dir, name string, o *Obligation, timeout int) *SolverResult {
+	if os.Getenv("GOVC_NOGROUND") != "" || o.prog == nil || o.ExpectSat {
+		return nil
+	}
+	g := groundObligation(o, 4)
+	if g == nil {
+		return nil
+	}
+	sc := g.prog.buildScript(g)
+	r := Solve(dir, name, sc, timeout)
+	if r.Status == "unsat" {
+		r.Solver += "+ginst"
+		return r
+	}
+	return nil
 }
 
 func dischargeVacuity(vac [][]*Obligation, dir string, timeout int) []*NamedResult {
